@@ -3,9 +3,13 @@
    Vocabulary: n6_api / n8_api / n26_api / nN_api are the string-level executable models of Get6spatialIdsAdjacentToFaces,
    Get8spatialIdsAroundHorizontal, Get26spatialIdsAroundVoxel and GetNspatialIdsAroundVoxcels (offsets enumerated as the Go code does);
    shift_spec i dx dy dv is the modular translation of C07: x, y advanced modulo 2^h, vertical index advanced by dv, zooms kept;
-   valids l := every member of l is a valid ID; nN_list = the list returned by nN_api ([] on error). *)
+   valids l := every member of l is a valid ID; nN_list = the list returned by nN_api ([] on error).
+   ALL theorems are statements about these Coq models, for IDs given as (or spelled as) valid extended IDs; the tie to the Go code is the
+   differential run (DC08).  capacity_ok H V := 0 <= H, 0 <= V and (2H+1)^2 (2V+1) <= 2^16: the Go function allocates that many slots
+   before looping (16 B each, whatever the input) and panics once the product wraps; the N-layer theorems are stated on that domain
+   because nothing is claimed of the code beyond it (the model itself has no such limit: Neighbour.nN_exact etc.). *)
 From Coq Require Import ZArith String List Lia.
-From SID Require Import Base Str Ids Shift Neighbour.
+From SID Require Import Base Str Ids Shift Neighbour NeighbourChk.
 Import ListNotations.
 Open Scope Z_scope.
 
@@ -30,17 +34,17 @@ Proof. exact v_n26_exact. Qed.
 Print Assumptions C08_twentysix_shell_exact.
 
 (* N layers, for a list: no error, no duplicates, and exactly the shifts of every listed voxel by every non-zero offset of the box *)
-Theorem C08_N_layers_exact_no_duplicates : forall l H V, valids l -> 0 <= H -> 0 <= V ->
+Theorem C08_N_layers_exact_no_duplicates : forall l H V, valids l -> capacity_ok H V ->
   exists r, nN_api (map print_eid l) H V = Ok r /\ NoDup r /\
     forall s, In s r <-> exists i dx dy dv, In i l /\ - H <= dx <= H /\ - H <= dy <= H /\ - V <= dv <= V /\
                                      ~ (dx = 0 /\ dy = 0 /\ dv = 0) /\ s = print_eid (shift_spec i dx dy dv).
-Proof. exact v_nN_exact. Qed.
+Proof. exact cap_nN_exact. Qed.
 Print Assumptions C08_N_layers_exact_no_duplicates.
 
 (* the result for a list is the union of the results for its members *)
-Theorem C08_N_layers_list_is_union : forall l H V s, valids l -> 0 <= H -> 0 <= V ->
+Theorem C08_N_layers_list_is_union : forall l H V s, valids l -> capacity_ok H V ->
   (In s (nN_list (map print_eid l) H V) <-> exists i, In i l /\ In s (nN_list [print_eid i] H V)).
-Proof. exact v_nN_union. Qed.
+Proof. exact (fun l H V s hl hc => cap_nN_union l H V s hl hc). Qed.
 Print Assumptions C08_N_layers_list_is_union.
 
 (* the 26-query is the (1,1)-layer query *)
@@ -61,10 +65,10 @@ Theorem C08_twentysix_distinct : forall i, valid i -> 3 <= 2 ^ eh i ->
   NoDup (n26_api (print_eid i)) /\ List.length (n26_api (print_eid i)) = 26%nat /\ ~ In (print_eid i) (n26_api (print_eid i)).
 Proof. exact v_n26_count. Qed.
 Print Assumptions C08_twentysix_distinct.
-Theorem C08_N_layers_count : forall i H V, valid i -> 0 <= H -> 0 <= V -> 2 * H + 1 <= 2 ^ eh i ->
+Theorem C08_N_layers_count : forall i H V, valid i -> capacity_ok H V -> 2 * H + 1 <= 2 ^ eh i ->
   exists r, nN_api [print_eid i] H V = Ok r /\ NoDup r /\
     Z.of_nat (List.length r) = (2 * H + 1) * (2 * H + 1) * (2 * V + 1) - 1 /\ ~ In (print_eid i) r.
-Proof. exact v_nN_count. Qed.
+Proof. exact cap_nN_count. Qed.
 Print Assumptions C08_N_layers_count.
 (* the stencil itself: (2H+1)^2 (2V+1) - 1 offsets, for every layer count *)
 Theorem C08_stencil_size : forall H V, 0 <= H -> 0 <= V ->
@@ -85,22 +89,23 @@ Theorem C08_twentysix_symmetric : forall i j, valid i -> valid j ->
   (In (print_eid j) (n26_api (print_eid i)) <-> In (print_eid i) (n26_api (print_eid j))).
 Proof. exact v_n26_symmetric. Qed.
 Print Assumptions C08_twentysix_symmetric.
-Theorem C08_N_layers_symmetric : forall H V i j, 0 <= H -> 0 <= V -> valid i -> valid j ->
+Theorem C08_N_layers_symmetric : forall H V i j, capacity_ok H V -> valid i -> valid j ->
   (In (print_eid j) (nN_list [print_eid i] H V) <-> In (print_eid i) (nN_list [print_eid j] H V)).
-Proof. exact v_nN_symmetric. Qed.
+Proof. exact cap_nN_symmetric. Qed.
 Print Assumptions C08_N_layers_symmetric.
 (* in the form observed at run time: no member of a valid voxel's neighbourhood lacks that voxel among its own neighbours
    (members may lie above/below the valid vertical range; the relation still holds) *)
-Theorem C08_N_layers_no_asymmetric_member : forall i H V, valid i -> 0 <= H -> 0 <= V <= 2 ^ 61 ->
+Theorem C08_N_layers_no_asymmetric_member : forall i H V, valid i -> capacity_ok H V ->
   asym (nN1 H V) (print_eid i) = [].
-Proof. exact nN_asym_nil. Qed.
+Proof. exact cap_nN_asym_nil. Qed.
 Print Assumptions C08_N_layers_no_asymmetric_member.
 Theorem C08_fixed_no_asymmetric_member : forall i, valid i ->
   asym n6_api (print_eid i) = [] /\ asym n8_api (print_eid i) = [] /\ asym n26_api (print_eid i) = [].
 Proof. exact (fun i h => conj (n6_asym_nil i h) (conj (n8_asym_nil i h) (n26_asym_nil i h))). Qed.
 Print Assumptions C08_fixed_no_asymmetric_member.
 
-(* ---- error results and degenerate arguments (behaviour of the code as it is) ---- *)
+(* ---- error results and degenerate arguments: what the MODEL returns (these unfold the model's first branches; they are here because the
+   run-time checker demands exactly this of the code: an error and no list / empty strings) ---- *)
 Theorem C08_negative_layers_error : forall ids H V, H < 0 \/ V < 0 -> nN_api ids H V = Err.
 Proof. exact nN_negative. Qed.
 Print Assumptions C08_negative_layers_error.
@@ -110,8 +115,8 @@ Print Assumptions C08_malformed_member_error.
 Theorem C08_zero_layers_empty : forall l, valids l -> nN_api (map print_eid l) 0 0 = Ok [].
 Proof. exact v_nN_zero_layers. Qed.
 Print Assumptions C08_zero_layers_empty.
-Theorem C08_empty_input_empty : forall H V, 0 <= H -> 0 <= V -> nN_api [] H V = Ok [].
-Proof. exact nN_empty_input. Qed.
+Theorem C08_empty_input_empty : forall H V, capacity_ok H V -> nN_api [] H V = Ok [].
+Proof. exact cap_nN_empty. Qed.
 Print Assumptions C08_empty_input_empty.
 (* the fixed-size queries have no error result: on a malformed ID they return 6 / 8 / 26 empty strings *)
 Theorem C08_fixed_malformed_gives_empty_strings : forall s, parse_eid s = None ->
@@ -119,28 +124,42 @@ Theorem C08_fixed_malformed_gives_empty_strings : forall s, parse_eid s = None -
 Proof. exact (fun s h => conj (n6_malformed s h) (conj (n8_malformed s h) (n26_malformed s h))). Qed.
 Print Assumptions C08_fixed_malformed_gives_empty_strings.
 
-(* ---- the model's nested loops with `continue` at (0,0,0) enumerate the stencil ---- *)
-Theorem C08_loops_enumerate_stencil : forall (A : Type) H V (body : off -> list A), loops H V body = flat_map body (stencil H V).
-Proof. exact @loops_stencil. Qed.
-Print Assumptions C08_loops_enumerate_stencil.
+(* ---- the stencil of the specification: the box minus the centre ---- *)
 Theorem C08_stencil_members : forall H V o, In o (stencil H V) <->
   (- H <= odx o <= H /\ - H <= ody o <= H /\ - V <= odv o <= V) /\ o <> o0.
 Proof. exact in_stencil. Qed.
 Print Assumptions C08_stencil_members.
 
-(* ---- the run-time checkers applied to the implementation's output are sound ---- *)
-Theorem C08_checker_fixed_sound : forall offs i obs, valid i -> check_fixed offs (print_eid i) obs = true ->
-  (forall s, In s obs <-> exists o, In o offs /\ s = print_eid (shift_o i o)) /\
-  (3 <= 2 ^ eh i -> List.length obs = List.length offs /\ NoDup obs /\ ~ In (print_eid i) obs).
-Proof. exact v_check_fixed_sound. Qed.
+(* ---- accepted non-canonical spellings ("+3/07/-0/+1/-01") of valid IDs are treated like the canonical form ---- *)
+Theorem C08_spelling_independent : forall s i, parse_eid s = Some i -> valid i ->
+  n6_api s = n6_api (print_eid i) /\ n8_api s = n8_api (print_eid i) /\ n26_api s = n26_api (print_eid i).
+Proof.
+  exact (fun s i p v => conj (n6_spell s i p (valid_fields_ok i v)) (conj (n8_spell s i p (valid_fields_ok i v)) (n26_spell s i p (valid_fields_ok i v)))).
+Qed.
+Print Assumptions C08_spelling_independent.
+Theorem C08_N_layers_spelling_independent : forall ss l H V, spells ss l -> nN_api ss H V = nN_api (map print_eid l) H V.
+Proof. exact cap_nN_spelling. Qed.
+Print Assumptions C08_N_layers_spelling_independent.
+
+(* ---- the run-time checkers applied to the implementation's output are sound (s : any accepted spelling of the valid ID i) ---- *)
+Theorem C08_checker_fixed_sound : forall offs s i obs, parse_eid s = Some i -> valid i -> check_fixed3 offs s obs = Some true ->
+  (forall m, In m obs <-> exists o, In o offs /\ m = print_eid (shift_o i o)) /\
+  List.length obs = List.length offs /\
+  (3 <= 2 ^ eh i -> NoDup obs /\ ~ In (print_eid i) obs).
+Proof. exact check_fixed3_sound. Qed.
 Print Assumptions C08_checker_fixed_sound.
-Theorem C08_checker_N_sound : forall l H V obs, valids l -> 0 <= H -> 0 <= V -> check_N (map print_eid l) H V obs = true ->
-  exists r, obs = Ok r /\ NoDup r /\
-    (forall s, In s r <-> exists i o, In i l /\ In o (stencil H V) /\ s = print_eid (shift_o i o)) /\
-    (forall i, l = [i] -> 2 * H + 1 <= 2 ^ eh i ->
-       Z.of_nat (List.length r) = (2 * H + 1) * (2 * H + 1) * (2 * V + 1) - 1 /\ ~ In (print_eid i) r).
-Proof. exact v_check_N_sound. Qed.
+Theorem C08_checker_N_sound : forall ss l H V err r, spells ss l -> valids l -> capacity_ok H V -> check_N3 ss H V err r = Some true ->
+  err = false /\ NoDup r /\
+  (forall s, In s r <-> exists i o, In i l /\ In o (stencil H V) /\ s = print_eid (shift_o i o)) /\
+  (forall i, l = [i] -> 2 * H + 1 <= 2 ^ eh i ->
+     Z.of_nat (List.length r) = (2 * H + 1) * (2 * H + 1) * (2 * V + 1) - 1 /\ ~ In (print_eid i) r).
+Proof. exact check_N3_sound. Qed.
 Print Assumptions C08_checker_N_sound.
+(* in the error cases the checker accepts only "error, and no list with it" *)
+Theorem C08_checker_N_error_cases : forall ids H V err r,
+  (H < 0 \/ V < 0 \/ (capacity_ok H V /\ parse_all ids = None)) -> check_N3 ids H V err r = Some true -> err = true /\ r = [].
+Proof. exact check_N3_error_cases. Qed.
+Print Assumptions C08_checker_N_error_cases.
 
 (* ---- non-vacuity ---- *)
 (* an edge voxel at zoom 2 (stencil narrower than the grid): 6 distinct wrapped neighbours *)
@@ -173,3 +192,9 @@ Example C08_nonvacuous_errors :
   nN_api ["3/7/0/4/15"%string] (-1) 0 = Err /\ nN_api ["3/7/0/4/15"; "a/0/0/0/0"]%string 1 1 = Err /\
   nN_api ["3/7/0/4/15"%string] 0 0 = Ok [].
 Proof. vm_compute. repeat split. Qed.
+(* the capacity bound is inhabited up to H = 127 (V = 0) and by every layer pair 0..4 *)
+Example C08_nonvacuous_capacity : capacity_ok 127 0 /\ capacity_ok 4 4 /\ capacity_ok 10 10 /\ ~ capacity_ok 128 0.
+Proof. unfold capacity_ok, capacity. repeat split; try (vm_compute; congruence). intros (_ & _ & H). vm_compute in H. congruence. Qed.
+Example C08_nonvacuous_spelling : parse_eid "+2/00/03/4/-016" = Some (mk 2 0 3 4 (-16)) /\
+  n6_api "+2/00/03/4/-016" = ["2/3/3/4/-16"; "2/0/2/4/-16"; "2/0/3/4/-17"; "2/1/3/4/-16"; "2/0/0/4/-16"; "2/0/3/4/-15"]%string.
+Proof. split; vm_compute; reflexivity. Qed.
